@@ -323,7 +323,7 @@ Proof. apply (C10_parse_sound 20). vm_compute. reflexivity. Qed.
    rules of the regenerated grammar = the specification functions of C10Ident.v, (c) implicit whitespace.
    Imports are kept inside a module: Peg.v and Grammar.v reuse short names (Ok, Seq, ...). *)
 Require Blots.Peg Blots.PegWf Blots.gen.Grammar Blots.proofs.PegGeneric Blots.proofs.PegPure Blots.proofs.PegIdent
-        Blots.proofs.PegShift Blots.proofs.PegLayout Blots.proofs.PegBlots.
+        Blots.proofs.PegShift Blots.proofs.PegLayout Blots.proofs.PegBlots Blots.proofs.PegNumber.
 Module PegLayer.
 Import Blots.Peg Blots.PegWf Blots.gen.Grammar Blots.proofs.PegGeneric Blots.proofs.PegPure Blots.proofs.PegIdent.
 Import Blots.proofs.PegShift Blots.proofs.PegLayout Blots.proofs.PegBlots.
@@ -524,6 +524,59 @@ Check C10_peg_blots_blanks_between_tokens : forall f la x y (s sb s1 : st grule)
                (run blots_grammar (S f) false NonAtomic la (Seq x y) s)
                (run blots_grammar (S f) false NonAtomic la (Seq x y) sb).
 Print Assumptions C10_peg_blots_blanks_between_tokens.
+
+(* (b4) C16's number token: the rule `number` of the regenerated grammar, run by the pest interpreter, accepts
+   exactly the language of gen/NumGrammar.v (the PEG-combinator term Properties/C16.v is about, regenerated
+   from grammar.pest by checks/c16.py — a third independent reading of the same source text), with the same
+   remainder, in every calling context. *)
+Theorem C10_peg_number_rule : exists n, forall fuel a la s,
+  n + String.length (rest s) <= fuel ->
+  call_with blots_grammar (run blots_grammar fuel) a la PG_number s
+  = rule_wrap PG_number a la (fun s' => pure_out grule s' (Blots.gen.NumGrammar.gen_number (rest s'))) s.
+Proof. exact Blots.proofs.PegNumber.peg_number_call. Qed.
+Check C10_peg_number_rule : exists n, forall fuel a la s,
+  n + String.length (rest s) <= fuel ->
+  call_with blots_grammar (run blots_grammar fuel) a la PG_number s
+  = rule_wrap PG_number a la (fun s' => pure_out grule s' (Blots.gen.NumGrammar.gen_number (rest s'))) s.
+Print Assumptions C10_peg_number_rule.
+
+Theorem C10_peg_number_language : exists n, forall text fuel,
+  n + String.length text <= fuel ->
+  parse blots_grammar fuel PG_number text =
+  match Blots.gen.NumGrammar.gen_number text with
+  | Some r => Ok (mkst (slen text - slen r) r stack_new [Node PG_number 0 (slen text - slen r) []])
+  | None => Fail (init text)
+  end.
+Proof. exact Blots.proofs.PegNumber.peg_number_language. Qed.
+Check C10_peg_number_language : exists n, forall text fuel,
+  n + String.length text <= fuel ->
+  parse blots_grammar fuel PG_number text =
+  match Blots.gen.NumGrammar.gen_number text with
+  | Some r => Ok (mkst (slen text - slen r) r stack_new [Node PG_number 0 (slen text - slen r) []])
+  | None => Fail (init text)
+  end.
+Print Assumptions C10_peg_number_language.
+
+(* (c4) the hypothesis of (c3) discharged for a literal token: "lit" ~ y with additional blanks after the
+   literal — unconditional. *)
+Theorem C10_peg_blanks_after_literal : forall (R : Type) (g : grammar R) (w : R) c0 cs,
+  g_ws g = Some w -> g_comment g = None -> g_def g w = mkdef MSilent true (char_choice c0 cs) ->
+  forall f la lit y p t b k o,
+  all_in (is_ws c0 cs) b = true -> (0 < p + slen lit)%N ->
+  S (List.length cs) + String.length (b ++ t) < f ->
+  layout_equiv R (slen b) o (mkst p (lit ++ t)%string k o) (mkst p (lit ++ b ++ t)%string k o)
+               (run g (S f) false NonAtomic la (Seq (Str lit) y) (mkst p (lit ++ t)%string k o))
+               (run g (S f) false NonAtomic la (Seq (Str lit) y) (mkst p (lit ++ b ++ t)%string k o)).
+Proof. exact seq_layout_literal. Qed.
+Check C10_peg_blanks_after_literal : forall (R : Type) (g : grammar R) (w : R) c0 cs,
+  g_ws g = Some w -> g_comment g = None -> g_def g w = mkdef MSilent true (char_choice c0 cs) ->
+  forall f la lit y p t b k o,
+  all_in (is_ws c0 cs) b = true -> (0 < p + slen lit)%N ->
+  S (List.length cs) + String.length (b ++ t) < f ->
+  layout_equiv R (slen b) o (mkst p (lit ++ t)%string k o) (mkst p (lit ++ b ++ t)%string k o)
+               (run g (S f) false NonAtomic la (Seq (Str lit) y) (mkst p (lit ++ t)%string k o))
+               (run g (S f) false NonAtomic la (Seq (Str lit) y) (mkst p (lit ++ b ++ t)%string k o)).
+Print Assumptions C10_peg_blanks_after_literal.
 
 (* (d) termination.  The regenerated grammar passes the computed well-formedness check (no left recursion, no
    nullable repetition body, WHITESPACE not nullable); the fuel-sufficiency statement is kept as a Prop — NOT
